@@ -130,6 +130,20 @@ func (e *c10Env) runHistory(h string) {
 		c.StopRecording()
 		e.expected[fm] = frm
 		m.StopRecording()
+	case "H4", "H4c": // the start fails while the header is written; StopRecording follows (stopConstantRecorder does that on every bad frame)
+		conf := *e.conf
+		conf.DeviceName = strings.Repeat("n", 300) // a header string this long is refused by the CPTV writer
+		r := newRec(&conf, e.cam)
+		if h == "H4c" {
+			r.SetAsConstantRecorder()
+		}
+		if err := r.StartRecording(tagFrame(e.cam, 1, 0), 2900); err == nil {
+			panic("H4: the start was expected to fail")
+		}
+		r.StopRecording()
+		// and a normal recording afterwards on the same recorder
+		r.header.DeviceName = "verif-device"
+		rec(r, 2, normalStop(r))
 	default:
 		panic("unknown history " + h)
 	}
@@ -268,12 +282,12 @@ func TestVerifC10(t *testing.T) {
 	}
 	r := ev.NewRun("C10", "overlay cmd/thermal-recorder TestVerifC10")
 	r.Rerun = c10Replay
-	hist := []string{"H1", "H2", "H3", "H5", "H6"}
+	hist := []string{"H1", "H2", "H3", "H4", "H4c", "H5", "H6"}
 	sizes := []string{"8x6"}
 	if r.Thorough() {
 		sizes = []string{"8x6", "160x120"}
 	}
-	r.Rule = "real CPTVFileRecorder + real go-cptv writer on a real temp directory, file-system calls numbered by the os->vos import rewrite: histories H1 (start, 3 frames, stop), H2 (two recordings), H3 (start, frames, Stop() on connection loss), H5 (motion + test recording interleaved in one directory), H6 (motion + continuous recorder in constant-recordings/); one uncrashed run per history with a concurrent-observer check (every *.cptv decodes header-to-EOF and equals what was recorded) at EVERY operation boundary, then one run per crash point k=1..N (kill before operation k) and per torn write (first half of write k reaches the file), each followed by the real deleteTempFiles and the check that only complete recordings remain. Non-trivial = crashed run."
+	r.Rule = "real CPTVFileRecorder + real go-cptv writer on a real temp directory, file-system calls numbered by the os->vos import rewrite: histories H1 (start, 3 frames, stop), H2 (two recordings), H3 (start, frames, Stop() on connection loss), H4/H4c (a start that fails while the header is written, followed by StopRecording and a normal recording; motion and continuous recorder), H5 (motion + test recording interleaved in one directory), H6 (motion + continuous recorder in constant-recordings/); one uncrashed run per history with a concurrent-observer check (every *.cptv decodes header-to-EOF and equals what was recorded) at EVERY operation boundary, then one run per crash point k=1..N (kill before operation k) and per torn write (first half of write k reaches the file), each followed by the real deleteTempFiles and the check that only complete recordings remain. Non-trivial = crashed run."
 	r.Assumptions = []string{"process-kill semantics: completed operations persist, user-space buffers are lost (power-loss durability is not claimed by C10)", "recording names come from a harness-owned clock advancing 1 ms per start"}
 	w := r.Serial()
 	points := map[string]int{}
